@@ -148,8 +148,10 @@ func (s *sim) open(dir string) error {
 			}
 			s.headIdx = nm
 		}
-		if empty {
-			// BaseWAL.OnStart will WriteSync(EndHeightMessage{0})
+		if empty && w.Group().ReadGroupInfo().TotalSize == 0 {
+			// BaseWAL.OnStart will WriteSync(EndHeightMessage{0}) into a completely empty WAL.
+			// (Before the fix recorded in KNOWN_FINDINGS.txt it also did so into an empty head
+			// next to rotated files; the reader-side oracle below tolerates that extra record.)
 			s.journal(cs.EndHeightMessage{Height: 0}, w.Group().MaxIndex(), true, true)
 		}
 		if err := w.Start(); err != nil {
@@ -543,7 +545,28 @@ func (s *sim) checkReadTail(w *cs.BaseWAL, j []rec, tail []rec, relaxed bool, ct
 		s.observePrune()
 		j = s.j
 	}
-	got, _, err := readAll(w)
+	got, endHs, err := readAll(w)
+	// An initial-height marker that the WAL wrote by itself and the journal does not know
+	// (shipped behaviour before the fix in KNOWN_FINDINGS.txt: one per empty head) is not a
+	// phantom record; drop it from the comparison.
+	known := map[string]bool{}
+	for i := range j {
+		if j[i].endH == 0 {
+			known[string(j[i].canon)] = true
+		}
+	}
+	for i := range tail {
+		known[string(tail[i].canon)] = true
+	}
+	kept := got[:0:0]
+	for k := range got {
+		if endHs[k] == 0 && !known[string(got[k])] {
+			s.env.Count("probe.extra_initial_marker")
+			continue
+		}
+		kept = append(kept, got[k])
+	}
+	got = kept
 	if len(tail) > 0 {
 		if len(got) < len(tail) {
 			if relaxed {
